@@ -241,11 +241,26 @@ BASE_AMBIENT = {"entropy": 1, "clock": 1700000000, "pid": 4242, "host": "vsim-ho
                 "home": "/root", "user": "root", "lang": "C", "term": "dumb", "tz": "UTC", "no_color": 1}
 
 
+# (kind, name prefix = where the type sorts among the existing ones, target module: 0 any / 1000 last-by-path / 2000 first-by-path):
+# a short list of combinations that matter to backends which walk types in sorted order, cycled so that a batch covers them
+INSERT_PROFILES = [("opaque_impl", "Zz", 1000), ("opaque_impl", "Aa", 2000), ("trait", "Aa", 2000), ("struct", "", 0), ("trait", "Zz", 1000),
+                   ("enum", "", 0), ("opaque", "Zz", 1000), ("opaque_impl", "", 0)]
+
+
+def insert_edit(rng, inserted, hidx, i, profile):
+    kind, prefix, target = INSERT_PROFILES[profile]
+    name = "%sVerifExtra%d_%d" % (prefix, hidx, i)
+    inserted.append(name)
+    return "insert_type:%s:%s:%d" % (name, kind, target + rng.below(64))
+
+
 def gen_history(rng, n_edits, hidx):
-    """A history is a list of edits; each state i is edits[:i]."""
+    """A history is a list of edits; each state i is edits[:i]. Every history starts with an insertion whose profile
+    is cycled over the batch; the remaining edits are drawn."""
     edits = []
     inserted, nonbridge, shadows = [], False, []
-    for i in range(n_edits):
+    edits.append(insert_edit(rng, inserted, hidx, 0, hidx % len(INSERT_PROFILES)))
+    for i in range(1, n_edits):
         r = rng.below(14)
         if r >= 12:
             if shadows and rng.chance(1, 2):
@@ -265,13 +280,7 @@ def gen_history(rng, n_edits, hidx):
             if inserted and rng.chance(2, 3):
                 edits.append("remove_type:%s" % inserted.pop())
             else:
-                # kinds, name prefixes (where the type sorts) and target modules are cycled with co-prime periods, so
-                # that a batch of histories covers their combinations instead of leaving that to chance
-                ins = hidx * 5 + i
-                kind = ["opaque_impl", "trait", "struct", "opaque", "enum", "opaque_impl", "trait"][ins % 7]
-                name = "%sVerifExtra%d_%d" % (["Aa", "", "Zz"][ins % 3], hidx, i)
-                inserted.append(name)
-                edits.append("insert_type:%s:%s:%d" % (name, kind, [2000, 0, 1000, 0][ins % 4] + rng.below(64)))
+                edits.append(insert_edit(rng, inserted, hidx, i, (hidx * 3 + i) % len(INSERT_PROFILES)))
         else:
             if nonbridge and rng.chance(1, 2):
                 edits.append("remove_nonbridge")
